@@ -15,7 +15,20 @@ a panic is a reply the contract cannot explain, a command the fake server lacks 
 are inputs on the redis-backed cache (server error on the call's first command, caller context
 cancelled / past its deadline, also for racing callers): failure reply, no effect; in-memory races
 include every call of the interface (Clear of a filled cache against readers) and cold-start rounds
-on a fresh cache."""
+on a fresh cache.
+
+Hardening 2 (generic): one-byte values and values of 63..65537 bytes around powers of two; the very
+same call twice; rendered results and released inputs are scribbled over by the caller as soon as the
+store cannot hold them any more (at once on redis, after a one-shot read / after Clear on the
+in-memory cache) and again before later calls; sizes and ttls around 2^8 / 2^16 / 2^32, key counts
+around multiples of SCAN's page; one call repeated 255..65537 times as ONE run-length-encoded `run`
+event; shape classes (never used, exactly full, one over, emptied by removals / clear / one-shot reads,
+one element, all expired in place) followed by the structural calls; every error either side knows
+(server replies, redis.ErrClosed / TxFailedErr, io.EOF, context errors, net timeouts, plain and wrapped;
+missing-key replies sometimes as a wrapped redis.Nil); the fake implements the EXPIRE family with
+NX|XX|GT|LT, SET with every option, GETEX etc. and answers anything else "ERR unknown command";
+update-ttl reads shorter and longer than the remaining ttl with the clock moved in between;
+thousands of remove-after-get bursts (parked spinning workers, one compact `burst` event each)."""
 
 
 def run(ctx):
@@ -38,7 +51,7 @@ def run(ctx):
     files = [ctx.path("mem.ndjson"), ctx.path("both.ndjson"), ctx.path("conc.ndjson")]
     ctx.harness(binary, ["-plans", pdir, "-plansr", rdir, "-out", files[0], "-both", files[1],
                          "-conc", files[2], "-seed", ctx.seed, "-hist", ctx.q(250, 4000),
-                         "-nboth", ctx.q(150, 2500), "-nconc", ctx.q(80, 1000), "-nrconc", ctx.q(80, 1000), "-nrds", ctx.q(70, 800), "-ncold", ctx.q(120, 1500),
+                         "-nboth", ctx.q(150, 2500), "-nconc", ctx.q(80, 1000), "-nrconc", ctx.q(80, 1000), "-nrds", ctx.q(70, 800), "-ncold", ctx.q(120, 1500), "-nburst", ctx.q(2000, 40000),
                          "-maxops", ctx.q(60, 120)], traces=files)
     # 4. validate what the real code did
     mem = ctx.load_traces(files[0])
